@@ -501,7 +501,7 @@ META = {
     "bounds": {
         "quick": {"elements": "ints 0..3", "set sizes": "<=3", "history length": "<=2", "argument kinds": ARGKINDS,
                   "LRU": "capacity 1..3, threshold in {0,.5,1}, pre-state <= limit entries, counters 1..40 symbolic"},
-        "thorough": {"elements": "ints 0..3", "set sizes": "<=3", "history length": "<=3", "argument kinds": ARGKINDS,
+        "thorough": {"elements": "ints 0..2 (binary operators: second operand up to 3 elements)", "set sizes": "<=3", "history length": "<=3 (initial size <=1 at length 3)", "argument kinds": ARGKINDS,
                      "LRU": "capacity 1..4, threshold in {0,.5,1}, counters 1..40 symbolic"},
     },
     "outside": ["compiled (.so) variants of the same modules (see C55, not applicable)", "unhashable elements",
@@ -515,22 +515,22 @@ META = {
 def harnesses(tier: str) -> List[Harness]:
     q = tier == "quick"
     hs: List[Harness] = []
-    sz = dict(na=2, nb=2, hi=2) if q else dict(na=2, nb=3, hi=3)
+    sz = dict(na=2, nb=2, hi=2) if q else dict(na=2, nb=3, hi=2)
     hs.append(Harness("orderedset_binop", h_orderedset_binop,
                       [dict(op=o, kind=k, **sz) for o in BINOPS for k in ARGKINDS
                        if not (o.startswith("__") and k in ("list", "iterator", "tuple", "dictkeys") and o != "__add__")],
                       budget_s=30 if q else 200))
     nops = 2 if q else 3
     hs.append(Harness("orderedset_history", h_orderedset_history,
-                      [dict(op0=i, nops=n, ninit=(1 if q else 2)) for i in range(len(ELEMOPS)) for n in range(1, nops + 1)],
-                      budget_s=45 if q else 300))
+                      [dict(op0=i, nops=n, ninit=(1 if (q or n == 3) else 2)) for i in range(len(ELEMOPS)) for n in range(1, nops + 1)],
+                      budget_s=45 if q else 240))
     hs.append(Harness("identityset", h_identityset,
                       [dict(op=o, otherkind=k, **sz) for o in ISOPS for k in ("IdentitySet", "list")
                        if not (o.startswith("__") and k == "list")],
                       budget_s=30 if q else 200))
     hs.append(Harness("identityset_history", h_identityset_history,
-                      [dict(op0=i, nops=n, ninit=(1 if q else 2)) for i in range(7) for n in range(1, nops + 1)],
-                      budget_s=45 if q else 300))
+                      [dict(op0=i, nops=n, ninit=(1 if (q or n == 3) else 2)) for i in range(7) for n in range(1, nops + 1)],
+                      budget_s=45 if q else 240))
     hs.append(Harness("immutabledict_union", h_immutabledict_union,
                       [dict(meth=m, nargs=n, kind1=k1, kind2=k2, hi=(1 if q else 2)) for m in ("union", "merge_with", "__or__", "__ror__")
                        for n in (0, 1, 2) for k1 in (0, 1, 2) for k2 in ((0, 1, 2) if n == 2 else (0,))
@@ -542,7 +542,7 @@ def harnesses(tier: str) -> List[Harness]:
     lru = []
     for c in caps:
         for th in (0.0, 0.5, 1.0):
-            for n in range(0, min(int(c + c * th), 5 if q else 8) + 1):
+            for n in range(0, min(int(c + c * th), 5 if q else 6) + 1):
                 for op in ("set", "get", "getitem"):
                     lru.append(dict(capacity=c, threshold=th, n=n, op=op))
     hs.append(Harness("lru_step", h_lru_step, lru, budget_s=30 if q else 300))
